@@ -362,8 +362,9 @@ impl Scenario for Exchange {
                                 pth.push(m);
                             }
                             // near-valid: a token-consistent path that revisits one of its own markets
-                            // ([X, Y, X] over markets sharing a pair) - invalid only because of the duplicate
-                            if pth.len() >= 2 && p.chance(1, 5) {
+                            // ([X, Y, X] over markets sharing a pair) - invalid only because of the duplicate. Only in the C44
+                            // batches, so that the plans of the other exchange-based checks are unchanged.
+                            if focus == "C44" && pth.len() >= 2 && p.chance(1, 5) {
                                 let again: Vec<usize> = pth.iter().copied().filter(|m| MARKETS[*m].1 != MARKETS[*m].2 && (MARKETS[*m].1 == cur || MARKETS[*m].2 == cur)).collect();
                                 if !again.is_empty() {
                                     let m = *p.pick(&again);
